@@ -7,9 +7,12 @@ pub mod c04;
 pub mod c05;
 pub mod c06;
 pub mod c07;
+pub mod c08;
 pub mod c09;
 pub mod c10;
 pub mod c12;
+pub mod c13;
+pub mod c14;
 
 pub fn all() -> Vec<(&'static str, fn() -> PropertyDef)> {
     vec![
@@ -20,8 +23,11 @@ pub fn all() -> Vec<(&'static str, fn() -> PropertyDef)> {
         ("C05", c05::def as fn() -> PropertyDef),
         ("C06", c06::def as fn() -> PropertyDef),
         ("C07", c07::def as fn() -> PropertyDef),
+        ("C08", c08::def as fn() -> PropertyDef),
         ("C09", c09::def as fn() -> PropertyDef),
         ("C10", c10::def as fn() -> PropertyDef),
         ("C12", c12::def as fn() -> PropertyDef),
+        ("C13", c13::def as fn() -> PropertyDef),
+        ("C14", c14::def as fn() -> PropertyDef),
     ]
 }
